@@ -87,16 +87,18 @@ func (g *Grant) endpointToks() []*Tok {
 }
 
 type Sim struct {
-	W      *world.World
-	R      *run.Ctx
-	Judged map[string]bool // violation kinds this monitor judges; nil = all
-	Prop   string
-	CaseID string
-	Grants []*Grant
-	Toks   []*Tok
-	Hist   []string
-	opN    int
-	Now    func() time.Time
+	// AuthFor overrides how the named client presents itself (default: by its registered method)
+	AuthFor map[string]world.Auth
+	W       *world.World
+	R       *run.Ctx
+	Judged  map[string]bool // violation kinds this monitor judges; nil = all
+	Prop    string
+	CaseID  string
+	Grants  []*Grant
+	Toks    []*Tok
+	Hist    []string
+	opN     int
+	Now     func() time.Time
 	// SweepHints: introspect with both hints during sweeps
 	BothHints bool
 	Cfg       Cfg
@@ -171,6 +173,9 @@ func (s *Sim) Expect(t *Tok) (Verdict, string) {
 }
 
 func (s *Sim) auth(client string) world.Auth {
+	if a, ok := s.AuthFor[client]; ok {
+		return a
+	}
 	sp := s.W.Specs[client]
 	if sp == nil {
 		return world.Public(client)
